@@ -6,7 +6,7 @@ import re
 
 from sa import cfg as cfgmod
 from sa.cfg import ENTRY, EXIT_RET, walk_expr
-from sa.core import AnalysisError, call_name, const, text
+from sa.core import AnalysisError, call_name, const, kw, text
 
 from . import tokrules
 from .callbacks import callbacks
@@ -29,6 +29,10 @@ def run(chk):
     from .c08 import r08c
 
     r08c(chk, 'R01.g')
+    r01h(chk)
+    r01i(chk)
+    r01j(chk)
+    r01k(chk)
 
 
 # ---------------------------------------------------------------------------
@@ -305,3 +309,290 @@ def _typed_caller(m, call, want, registered):
         # the token passed must be the callback's own token
         return True if any(text(a) == 'token' for a in call.args) else _guarded_by_type(m, call, want)
     return _guarded_by_type(m, call, want)
+
+
+def r01h(chk, rid='R01.h'):
+    chk.rule(rid, 'internal parser exceptions never escape ProdParser.parse: every call of a nextProd method (whose implementations raise the ParseError family: NoMatch, Exhausted, Missing, Done) lies inside try blocks whose handlers together cover the whole family; what the handlers do is log (turning the mismatch into a reported error) or stop')
+    m = chk.repo.mod('cssutils/prodparser.py')
+    family = {}
+    for q, c in m.classes():
+        bases = [text(b) for b in c.bases]
+        if q == 'ParseError' or any(b in family or b == 'ParseError' for b in bases):
+            family[q] = bases
+    # second pass for subclasses declared before/after
+    for q, c in m.classes():
+        if any(text(b) in family for b in c.bases):
+            family[q] = [text(b) for b in c.bases]
+    if not {'ParseError', 'NoMatch', 'Exhausted', 'Missing', 'Done'} <= set(family):
+        raise AnalysisError(f'prodparser exception family not recognised: {sorted(family)}')
+    raised = set()
+    for q, fn in m.functions():
+        if q.endswith('.nextProd'):
+            for r in ast.walk(fn):
+                if isinstance(r, ast.Raise) and r.exc is not None:
+                    raised.add(call_name(r.exc) if isinstance(r.exc, ast.Call) else text(r.exc))
+    raised &= set(family)
+    if len(raised) < 3:
+        raise AnalysisError(f'nextProd implementations raise only {sorted(raised)}')
+    fn = m.get('ProdParser.parse')
+    n = 0
+    for c in ast.walk(fn):
+        if isinstance(c, ast.Call) and isinstance(c.func, ast.Attribute) and c.func.attr == 'nextProd':
+            n += 1
+            covered = set()
+            child, p = c, m.parents.get(c)
+            while p is not None and p is not fn:
+                if isinstance(p, ast.Try) and child in p.body:
+                    for h in p.handlers:
+                        names = [text(h.type)] if h.type is not None and not isinstance(h.type, ast.Tuple) else ([text(e) for e in h.type.elts] if h.type is not None else ['BaseException'])
+                        for nm in names:
+                            if nm in ('ParseError', 'Exception', 'BaseException'):
+                                covered |= set(family)
+                            covered.add(nm)
+                child, p = p, m.parents.get(p)
+            missing = sorted(raised - covered)
+            chk.ob(rid, 'cssutils/prodparser.py', 'ProdParser.parse', f'`{text(c)}`: {sorted(raised)} are all handled', not missing,
+                   f'{missing} can propagate out of parse(): a value or media query that does not match raises an internal exception instead of being reported')
+    if n < 2:
+        raise AnalysisError('ProdParser.parse: nextProd calls not found')
+
+
+def _derefs_new(fn):
+    """Subscripts of the free variable ``new`` in a default production: (node, guarded_by_EOF)."""
+    out = []
+    for n in ast.walk(fn):
+        if isinstance(n, ast.Subscript) and isinstance(n.value, ast.Name) and n.value.id == 'new':
+            out.append(n)
+    return out
+
+
+def _may_return_eof(target):
+    if isinstance(target, ast.Lambda):
+        return any(const(x) == 'EOF' for x in ast.walk(target.body))
+    for r in ast.walk(target):
+        if isinstance(r, ast.Return) and r.value is not None and any(const(x) == 'EOF' for x in ast.walk(r.value)):
+            return True
+    return False
+
+
+def r01i(chk, rid='R01.i'):
+    chk.rule(rid, "default productions and their state: the default productions of Base/Base2._adddefaultproductions store into `new[...]` once the state is 'EOF'; a self._parse(...) call that does not pass new= leaves new=None, so at every such site either the productions it passes override each default production that subscripts `new`, or no callback of the site (other than the one for the EOF token, which is last) can return the state 'EOF' and the initial state is not 'EOF'")
+    from .effects import Effects
+
+    eff = Effects.get(chk.repo)
+    sites, cbs = callbacks(chk.repo)
+    um = chk.repo.mod('cssutils/util.py')
+    deref = {}
+    for base in ('Base', 'Base2'):
+        f = um.get(f'{base}._adddefaultproductions')
+        d = {}
+        for cb in cbs:
+            if cb.owner == f'{base}._adddefaultproductions' and not isinstance(cb.target, ast.Lambda):
+                subs = _derefs_new(cb.target)
+                if subs:
+                    d[cb.key] = cb.target
+        deref[base] = d
+    if not deref['Base'] or not deref['Base2']:
+        raise AnalysisError('util.py: no default production subscripts `new` (ATKEYWORD confirmed by hand)')
+    n = 0
+    for m, fn, q, cls, call in sites:
+        n += 1
+        newarg = None
+        for k in call.keywords:
+            if k.arg == 'new':
+                newarg = k.value
+        if newarg is None and len(call.args) >= 6:
+            newarg = call.args[5]
+        if newarg is not None and const(newarg) is not None or (newarg is not None and not isinstance(newarg, ast.Constant)):
+            chk.ob(rid, m.rel, q, f'`self._parse(...)` line-independent: passes new={text(newarg)}', True, '', trivial=True)
+            continue
+        ci = next((c for c in eff.classes.get(cls, []) if c.rel == m.rel), None)
+        impl = eff.mro_lookup(ci, '_adddefaultproductions') if ci is not None else None
+        if impl is None:
+            raise AnalysisError(f'{m.rel}:{q}: _adddefaultproductions not resolved for class {cls}')
+        owner = None
+        for base in ('Base', 'Base2'):
+            if impl is um.get(f'{base}._adddefaultproductions'):
+                owner = base
+        if owner is None:
+            raise AnalysisError(f'{m.rel}:{q}: {cls} overrides _adddefaultproductions')
+        mine = [cb for cb in cbs if cb.owner == q and cb.rel == m.rel and _site_of(m, cb, call)]
+        keys = {cb.key for cb in mine}
+        open_ = sorted(k for k in deref[owner] if k not in keys)
+        if not open_:
+            chk.ob(rid, m.rel, q, 'new-dereferencing default productions are all overridden', True, '')
+            continue
+        prods = kw(call, 'productions') if kw(call, 'productions') is not None else (call.args[3] if len(call.args) >= 4 else None)
+        if prods is not None and text(prods) == 'new.productions':
+            mine = [cb for cb in cbs if cb.owner == 'New.productions']
+            open_ = sorted(k for k in deref[owner] if k not in {cb.key for cb in mine})
+        init = kw(call, 'expected') if kw(call, 'expected') is not None else (call.args[0] if call.args else None)
+        bad = []
+        if init is not None and const(init) == 'EOF':
+            bad.append('the initial state')
+        for cb in mine:
+            if cb.key != 'EOF' and _may_return_eof(cb.target):
+                bad.append(f'the {cb.key} production `{text(cb.expr)[:40]}`')
+        chk.ob(rid, m.rel, q, f"_parse without new=: the default {'/'.join(open_)} production never runs in state 'EOF'", not bad,
+               f"{', '.join(bad)} can yield the state 'EOF'; a following {'/'.join(open_)} token then executes new['wellformed'] = False with new=None: TypeError out of the parser")
+    if n < 12:
+        raise AnalysisError(f'only {n} _parse call sites found (13 confirmed by hand)')
+
+
+def _site_of(m, cb, call):
+    """Is the callback expression part of this call (a function may hold two _parse calls)?"""
+    return any(x is cb.expr for x in ast.walk(call))
+
+
+# ---------------------------------------------------------------------------
+# Consumers of ProdParser.parse results.  At the end of input ProdParser closes what is open
+# and reports ok, so "ok" does not imply that every production of the sequence has matched.
+def _prodparser_consumers(repo):
+    out = []
+    for rel, m in repo.modules.items():
+        if not rel.startswith(('cssutils/css/', 'cssutils/stylesheets/')) or rel.endswith('cssvalue.py'):
+            continue
+        for q, fn in m.functions():
+            for st in ast.walk(fn):
+                if isinstance(st, ast.Assign) and isinstance(st.value, ast.Call) and text(st.value.func).endswith('ProdParser().parse') \
+                        and isinstance(st.targets[0], ast.Tuple) and len(st.targets[0].elts) == 4 and m.enclosing_def(st) is fn:
+                    names = [e.id if isinstance(e, ast.Name) else None for e in st.targets[0].elts]
+                    out.append((rel, m, q, fn, st, names))
+    return out
+
+
+def r01j(chk, rid='R01.j'):
+    chk.rule(rid, "store keys after ProdParser.parse: `ok` does not imply that a production with toStore='k' has matched (the parser closes open constructs at the end of input), so every read `store['k']` is protected: inside a try that catches KeyError, under a condition `'k' in store`, or under a flag that an earlier `'k' not in store` test has cleared")
+    cons = _prodparser_consumers(chk.repo)
+    if len(cons) < 8:
+        raise AnalysisError(f'only {len(cons)} consumers of ProdParser().parse found')
+    n = 0
+    for rel, m, q, fn, st, names in cons:
+        store = names[2]
+        if store is None:
+            continue
+        for sub in ast.walk(fn):
+            if not (isinstance(sub, ast.Subscript) and isinstance(sub.ctx, ast.Load) and isinstance(sub.value, ast.Name)
+                    and sub.value.id == store and isinstance(const(sub.slice), str)):
+                continue
+            n += 1
+            key = sub.slice.value
+            how = _key_guard(m, fn, sub, store, key)
+            if how == 'shape':
+                chk.ob(rid, rel, q, f"`{text(sub)}` is protected", False, f"a membership test for {key!r} exists but not in a recognised guarding position", shape=True)
+            else:
+                chk.ob(rid, rel, q, f"`{text(sub)}` is protected ({how or 'unprotected'})", bool(how),
+                       f"input that ends before the production storing {key!r} has matched is reported ok by ProdParser and this read raises KeyError out of the parser")
+    if n < 5:
+        raise AnalysisError(f'only {n} store[...] reads found (6 confirmed by hand)')
+
+
+def _membership(test, store, key, negated):
+    """Does `test` (or one conjunct) state that key is (not) in store?"""
+    conj = test.values if isinstance(test, ast.BoolOp) and isinstance(test.op, ast.And) else [test]
+    for c in conj:
+        if isinstance(c, ast.Compare) and len(c.ops) == 1 and const(c.left) == key and isinstance(c.comparators[0], ast.Name) and c.comparators[0].id == store:
+            if isinstance(c.ops[0], ast.NotIn if negated else ast.In):
+                return True
+    return False
+
+
+def _key_guard(m, fn, sub, store, key):
+    child, p = sub, m.parents.get(sub)
+    flags = []
+    while p is not None and p is not fn:
+        if isinstance(p, ast.Try) and child in p.body:
+            for h in p.handlers:
+                names = [] if h.type is None else ([text(e) for e in h.type.elts] if isinstance(h.type, ast.Tuple) else [text(h.type)])
+                if h.type is None or {'KeyError', 'LookupError', 'Exception'} & set(names):
+                    return 'try/except KeyError'
+        if isinstance(p, ast.If) and child in p.body:
+            if _membership(p.test, store, key, negated=False):
+                return f"under `{text(p.test)}`"
+            conj = p.test.values if isinstance(p.test, ast.BoolOp) and isinstance(p.test.op, ast.And) else [p.test]
+            flags += [(x.id, p) for x in conj if isinstance(x, ast.Name)]
+        if isinstance(p, ast.If) and child in p.orelse and _membership(p.test, store, key, negated=True):
+            return f"in the else of `{text(p.test)}`"
+        child, p = p, m.parents.get(p)
+    # flag idiom: `if ... 'k' not in store: flag = False` earlier in the same block as `if flag:`
+    for flag, ifnode in flags:
+        holder = m.parents.get(ifnode)
+        for field in ('body', 'orelse', 'finalbody'):
+            blk = getattr(holder, field, None)
+            if isinstance(blk, list) and ifnode in blk:
+                idx = blk.index(ifnode)
+                cleared = None
+                for i, s in enumerate(blk[:idx]):
+                    if isinstance(s, ast.If) and _membership(s.test, store, key, negated=True):
+                        for a in ast.walk(s):
+                            if isinstance(a, ast.Assign) and const(a.value) is False and any(isinstance(t, ast.Name) and t.id == flag for t in a.targets):
+                                cleared = i
+                if cleared is not None:
+                    # the flag must not be set again between the test and its use
+                    reset = any(isinstance(a, ast.Assign) and any(isinstance(t, ast.Name) and t.id == flag for t in a.targets)
+                                for s in blk[cleared + 1:idx] for a in ast.walk(s))
+                    if not reset:
+                        return f"under `{flag}`, cleared when {key!r} is not in {store}"
+    src = ast.unparse(fn)
+    if f"{key!r} in {store}" in src or f"{key!r} not in {store}" in src:
+        return 'shape'
+    return ''
+
+
+def r01k(chk, rid='R01.k'):
+    chk.rule(rid, "colour function components: in ColorValue._setCssText the list of components collected from the parsed sequence has as many entries as the input had before it ended; every use that needs three or four of them (raw[i], the four-way unpacking of rgba) is unreachable from the collection once the edges that establish the count are removed (the false edge of `check not in checks[...]` / of `len(check) != n`, the true edge of their positive forms)")
+    rel = 'cssutils/css/value.py'
+    m = chk.repo.mod(rel)
+    fn = m.get('ColorValue._setCssText')
+    g = cfgmod.CFG(fn)
+    init = [n for n in g.nodes if n.kind == 'stmt' and isinstance(n.stmt, ast.Assign) and isinstance(n.stmt.targets[0], ast.Tuple)
+            and {'raw', 'check'} <= {e.id for e in n.stmt.targets[0].elts if isinstance(e, ast.Name)}]
+    if len(init) != 1:
+        raise AnalysisError('ColorValue._setCssText: initialisation of raw/check not found')
+    good = {}  # test node id -> label of the validating edge
+    for n in g.nodes:
+        if n.kind != 'if':
+            continue
+        t = n.stmt.test
+        src = text(t)
+        relevant = 'len(check)' in src or 'len(raw)' in src or ('check' in src and 'checks[' in src)
+        if not relevant:
+            continue
+        lab = None
+        if isinstance(t, ast.Compare) and len(t.ops) == 1:
+            op = t.ops[0]
+            if isinstance(t.left, ast.Name) and t.left.id == 'check' and 'checks[' in text(t.comparators[0]):
+                lab = 'false' if isinstance(op, ast.NotIn) else 'true' if isinstance(op, ast.In) else None
+            elif text(t.left) in ('len(check)', 'len(raw)'):
+                k = const(t.comparators[0])
+                opn = type(op).__name__
+                if isinstance(k, int):
+                    # the edge on which at least three entries are established
+                    lab = {'Gt': 'true' if k >= 2 else None, 'GtE': 'true' if k >= 3 else None, 'Lt': 'false' if k >= 3 else None,
+                           'LtE': 'false' if k >= 2 else None, 'Eq': 'true' if k >= 3 else None, 'NotEq': 'false' if k >= 3 else None}.get(opn)
+                    if lab is None and opn in ('Gt', 'GtE', 'Lt', 'LtE', 'Eq', 'NotEq'):
+                        continue  # a test that establishes nothing
+                elif 'checks[' in text(t.comparators[0]):
+                    lab = {'NotEq': 'false', 'Eq': 'true'}.get(opn)
+        if lab is None:
+            raise AnalysisError(f'ColorValue._setCssText: count test `{src}` not in a recognised form')
+        good[n.id] = lab
+    uses = []
+    for n in g.nodes:
+        for e in cfgmod.node_exprs(n):
+            for x in walk_expr(e):
+                if isinstance(x, ast.Subscript) and isinstance(x.ctx, ast.Load) and isinstance(x.value, ast.Name) and x.value.id == 'raw' and isinstance(const(x.slice), int):
+                    uses.append((n, text(x)))
+        if n.kind == 'stmt' and isinstance(n.stmt, ast.Assign) and isinstance(n.stmt.targets[0], ast.Tuple) and len(n.stmt.targets[0].elts) == 4 and 'rgba' in text(n.stmt.value):
+            uses.append((n, text(n.stmt)[:70]))
+    if len(uses) < 4:
+        raise AnalysisError(f'ColorValue._setCssText: only {len(uses)} component uses found')
+    seen = g.reachable([init[0].id], labels=lambda s, t, lab: not (s in good and good[s] in lab.split('|')))
+    done = set()
+    for n, what in uses:
+        if (n.id, what) in done:
+            continue
+        done.add((n.id, what))
+        ok = n.id not in seen
+        chk.ob(rid, rel, 'ColorValue._setCssText', f'`{what}` runs only with a validated component count', ok,
+               "reachable with any number of components: `rgb(`, `rgb(1` or `hsl(` at the end of input raise IndexError/ValueError out of parseString")
